@@ -411,6 +411,12 @@ fn run_c12(context: &CheckContext, mut outcome: CheckOutcome) -> CheckOutcome {
     stress_report.wall_s = started.elapsed().as_secs_f64();
     outcome.reports.push(stress_report);
     if !outcome.violations.is_empty() { return outcome; }
+    // 4. acknowledged => executed and visible, on sequential histories with stall windows
+    for campaign in seq_campaigns("C12") {
+        let (report, violation) = run_seq_campaign(context, &campaign);
+        outcome.reports.push(report);
+        if let Some(violation) = violation { outcome.violations.push(violation); return outcome; }
+    }
     run_conc_check(context, outcome)
 }
 
